@@ -4,6 +4,7 @@ import (
 	"fmt"
 	"path"
 	"sort"
+	"strings"
 
 	"go.uber.org/thriftrw/internal/zzsim/simrt"
 )
@@ -50,7 +51,7 @@ type Edit struct {
 
 var editKinds = []string{
 	// breaking
-	"remove-service", "remove-method", "add-required-field", "optional-to-required", "change-field-type",
+	"remove-service", "remove-method", "add-required-field", "optional-to-required", "change-field-type", "recase-method",
 	// compatible
 	"add-optional-field", "add-method", "add-service", "add-type", "add-const", "delete-struct", "reorder-defs", "reorder-fields",
 	"change-default", "rename-field", "required-to-optional", "add-include", "add-file", "delete-file", "add-required-field-with-default", "remove-field",
@@ -119,6 +120,28 @@ func (p *Program) ApplyEdit(hasAddFile, hasDelFile bool) *Edit {
 		name := s.Funcs[i].Name
 		s.Funcs = append(s.Funcs[:i:i], s.Funcs[i+1:]...)
 		return &Edit{kind, true, fmt.Sprintf("method %s of %s in %s", name, s.Name, f.RelPath())}
+	case "recase-method":
+		// a method replaced by a variant of its name in another letter case: the old one is gone
+		ss := p.services(f)
+		if len(ss) == 0 {
+			return nil
+		}
+		s := ss[ch("edit.pick", len(ss))]
+		if len(s.Funcs) == 0 {
+			return nil
+		}
+		i := ch("edit.func", len(s.Funcs))
+		old := s.Funcs[i].Name
+		nfn := *s.Funcs[i]
+		nfn.Name = strings.ToUpper(old[:1]) + old[1:]
+		if nfn.Name == old {
+			nfn.Name = strings.ToLower(old[:1]) + old[1:]
+		}
+		if nfn.Name == old {
+			return nil
+		}
+		s.Funcs[i] = &nfn
+		return &Edit{kind, true, fmt.Sprintf("method %s of %s in %s is now spelled %s", old, s.Name, f.RelPath(), nfn.Name)}
 	case "add-required-field-with-default":
 		// marked required but carrying a default: not required in effect, hence compatible
 		ss := p.structs(f)
